@@ -768,6 +768,10 @@ theorem checkBlockHeader_decide (p : ChainParams) (hlim : p.powLimit < 2 ^ 256)
       simp only [if_true, serHeader_ok h hh, checkPoW]
       cases hc : Model.checkPoW p.powLimit (hash256 (Spec.Wire.header h)) h.nBits with
       | errPow => simp only [reject]
+      | pyStructError =>
+        have h32 : 32 ≤ (hash256 (Spec.Wire.header h)).length := by rw [hH]
+        rcases C17.pow_reject_is_validation p.powLimit _ h32 h.nBits with h' | h' <;>
+          simp [hc] at h'
       | ok =>
         have hv := hpow.mp hc
         have ht : (h.nTime : Int) > now + 7200 := by
